@@ -717,12 +717,87 @@ Proof.
       * rewrite nth_error_upd_other in H3 by auto. eapply SH2; eauto.
 Qed.
 
+Lemma copy_rows_like_x_struct h f d x :
+  arrs (copy_rows_like_x h f d x) = arrs h /\ caches (copy_rows_like_x h f d x) = caches h /\
+  streams (copy_rows_like_x h f d x) = streams h.
+Proof.
+  revert h x; induction d as [|a d IH]; intros h [|b x]; simpl; auto.
+  destruct (IH (put_row h a (f (getrow h b))) x) as (A & B & C). simpl in *. auto.
+Qed.
+
+(* copy_like from a stream of another package: the same cells are touched as within one package *)
+Lemma inv_copy_like_x h i s o :
+  Inv h -> nth_error (streams h) i = Some s -> Inv (fst (copy_like_x pkgs h i s o)).
+Proof.
+  intros I Hs. unfold copy_like_x.
+  destruct (map_rows_struct h (fun v => vzero (length v)) (rowrefs h s)) as (A0 & C0 & S0).
+  assert (I0 : Inv (empty_all h s)) by (unfold empty_all; eapply inv_struct; eauto).
+  destruct (multi s) eqn:M; destruct (multi o) eqn:MO.
+  - destruct (existsb (xmiss (chems pkgs (pkg o)) (chems pkgs (pkg s))) (all_rows h o)); [exact I|].
+    destruct (phases_eqb (phs s) (phs o)); [|exact I]. cbn [fst].
+    destruct (copy_rows_like_x_struct (empty_all h s) (remap (chems pkgs (pkg o)) (chems pkgs (pkg s))) (rowrefs h s) (rowrefs h o)) as (A & B & C).
+    eapply inv_struct; [| | |exact I0]; simpl; auto.
+  - unfold empty_all in *.
+    destruct (pindex (phs s) (getbox h (pbox o))) as [k|].
+    + destruct (nth_error (rowrefs (map_rows h (fun v => vzero (length v)) (rowrefs h s)) s) k); [|exact I0].
+      destruct (xmiss (chems pkgs (pkg o)) (chems pkgs (pkg s)) (getrow h (sdata o))); [exact I0|].
+      cbn [fst]. eapply inv_struct; [| | |exact I0]; reflexivity.
+    + destruct (stream_shares_arr h i (sdata s)) eqn:NS; [exact I|].
+      set (h0 := map_rows h (fun v => vzero (length v)) (rowrefs h s)) in *.
+      pose proof (expand_rows_frame (nchem pkgs (pkg s)) (psort (getbox h (pbox o) :: phs s))
+                    (combine (phs s) (getarr h0 (sdata s))) h0) as F.
+      destruct (expand_rows h0 (nchem pkgs (pkg s)) (psort (getbox h (pbox o) :: phs s))
+                  (combine (phs s) (getarr h0 (sdata s)))) as [rs h1]. cbn [fst snd] in F.
+      destruct F as (FA & FC & FS).
+      assert (G : forall h4, arrs h4 = upd (arrs h1) (sdata s) rs -> caches h4 = upd (caches h1) (cch s) cache0 ->
+                  streams h4 = upd (streams h1) i (mkstream true (sdata s) (pbox s)
+                                 (psort (getbox h (pbox o) :: phs s)) (pkg s) (cch s) (tc s)) -> Inv h4).
+      { intros h4 A4 C4 S4. eapply (inv_expand h i s _ rs I Hs M NS).
+        - rewrite A4, FA, A0. reflexivity.
+        - rewrite C4, FC, C0. reflexivity.
+        - rewrite S4, FS, S0. reflexivity. }
+      destruct (pindex (psort (getbox h (pbox o) :: phs s)) (getbox h (pbox o))) as [k|].
+      * destruct (nth_error rs k); [|cbn [fst]; apply G; reflexivity].
+        destruct (xmiss (chems pkgs (pkg o)) (chems pkgs (pkg s)) (getrow h (sdata o))); cbn [fst]; apply G; reflexivity.
+      * cbn [fst]. apply G; reflexivity.
+  - assert (Hs0 : nth_error (streams (empty_all h s)) i = Some s) by (rewrite <- Hs; f_equal; exact S0).
+    assert (TAIL : forall l, Inv (fst (
+       match single_to_multi pkgs (empty_all h s) i s l with
+       | (h1, XNone) =>
+           match nth_error (streams h1) i with
+           | Some s1 =>
+               if existsb (xmiss (chems pkgs (pkg o)) (chems pkgs (pkg s))) (all_rows h1 o) then (h1, XErr EOther)
+               else if phases_eqb (phs s1) (phs o)
+               then (copy_tp (copy_rows_like_x (empty_all h1 s1) (remap (chems pkgs (pkg o)) (chems pkgs (pkg s))) (rowrefs h1 s1) (rowrefs h1 o)) s1 o, XNone)
+               else (h1, XDomain)
+           | None => (h1, XErr EIndex)
+           end
+       | r => r
+       end))).
+    { intros l. pose proof (inv_single_to_multi _ i s l I0 Hs0) as I1.
+      destruct (single_to_multi pkgs (empty_all h s) i s l) as [h1 x]. cbn [fst] in I1.
+      destruct x; try exact I1.
+      destruct (nth_error (streams h1) i) as [s1|]; [|exact I1].
+      destruct (existsb (xmiss (chems pkgs (pkg o)) (chems pkgs (pkg s))) (all_rows h1 o)); [exact I1|].
+      destruct (phases_eqb (phs s1) (phs o)); [|exact I1]. cbn [fst].
+      destruct (map_rows_struct h1 (fun v => vzero (length v)) (rowrefs h1 s1)) as (A1 & C1 & S1).
+      destruct (copy_rows_like_x_struct (empty_all h1 s1) (remap (chems pkgs (pkg o)) (chems pkgs (pkg s))) (rowrefs h1 s1) (rowrefs h1 o)) as (A & B & C).
+      eapply inv_struct; [| | |exact I1]; simpl; unfold empty_all in *; congruence. }
+    destruct (phs o) as [|p [|q r]] eqn:PO.
+    + apply TAIL.
+    + destruct (xmiss (chems pkgs (pkg o)) (chems pkgs (pkg s)) (nth 0 (all_rows (empty_all h s) o) [])); [exact I0|].
+      cbn [fst]. eapply inv_struct; [| | |exact I0]; reflexivity.
+    + apply TAIL.
+  - destruct (xmiss (chems pkgs (pkg o)) (chems pkgs (pkg s)) (getrow (empty_all h s) (sdata o))); [exact I0|].
+    cbn [fst]. eapply inv_struct; [| | |exact I0]; reflexivity.
+Qed.
+
 Lemma inv_copy_like h i s o same :
   Inv h -> nth_error (streams h) i = Some s -> Inv (fst (copy_like pkgs h i s o same)).
 Proof.
   intros I Hs. unfold copy_like.
   destruct same; [exact I|].
-  destruct (negb (Nat.eqb (pkg s) (pkg o))); [exact I|].
+  destruct (negb (Nat.eqb (pkg s) (pkg o))); [apply inv_copy_like_x; auto|].
   destruct (multi s) eqn:M; destruct (multi o) eqn:MO.
   - destruct (phases_eqb (phs s) (phs o)); [|exact I]. cbn [fst].
     destruct (copy_rows_like_struct h (rowrefs h s) (rowrefs h o)) as (A & B & C).
@@ -1151,7 +1226,7 @@ Qed.
 Lemma inv_step h o : Inv h -> Inv (fst (step Vf MWf pkgs utab h o)).
 Proof.
   intros I. unfold step.
-  destruct o as [ |i w|i w|i|i u r k|i u r k v|i u|i u v|i w r k v|i w v|i v|i v|i p|i l|i j f p t|i|i j|i k|i k|i w u r k|i w u r k v|i j w|i w r1 r2|fl|i rp ru rt rfl|i r];
+  destruct o as [ |i w|i w|i|i u r k|i u r k v|i u|i u v|i w r k v|i w v|i v|i v|i p|i l|i j f p t|i|i j|i k|i k|i w u r k|i w u r k v|i j w|i w r1 r2|fl|i rp ru rt rfl|i r|i|i mt mu ml mpf];
     try exact I; try (apply inv_from_streams; exact I);
     (destruct (nth_error (streams h) i) as [s|] eqn:Hs; [|exact I]).
   - destruct w; [exact I| |].
@@ -1189,6 +1264,8 @@ Proof.
     destruct (Nat.eqb i j); [exact I|]. apply inv_assign_view with (i := i) (j := j); auto.
   - apply inv_copy_row_view with (i := i); auto.
   - apply inv_reset_flow with (i := i); auto.
+  - cbn [fst]. destruct (map_rows_struct h (fun v => vzero (length v)) (rowrefs h s)) as (A0 & C0 & S0).
+    unfold empty_all. eapply inv_struct; eauto.
 Qed.
 
 Lemma inv_run ops : forall h, Inv h -> Inv (fst (run Vf MWf pkgs utab h ops)).
@@ -1643,7 +1720,7 @@ Proof.
   assert (D : Inv (uh (fst (liftU U (step Vf MWf pkgs utab (uh U) o))))).
   { unfold liftU. cbn [fst uh with_heap]. apply inv_step. exact I. }
   unfold stepU.
-  destruct o as [ |i w|i w|i|i u r k|i u r k v|i u|i u v|i w r k v|i w v|i v|i v|i p|i l|i j f p t|i|i j|i k|i k|i w u r k|i w u r k v|i j w|i w r1 r2|fl|i rp ru rt rfl|i r];
+  destruct o as [ |i w|i w|i|i u r k|i u r k v|i u|i u v|i w r k v|i w v|i v|i v|i p|i l|i j f p t|i|i j|i k|i k|i w u r k|i w u r k v|i j w|i w r1 r2|fl|i rp ru rt rfl|i r|i|i mt mu ml mpf];
     try exact D; try (apply inv_stepU_from; exact I); try (apply inv_stepU_reset; exact I);
     (destruct (nth_error (streams (uh U)) i) as [s|] eqn:Hs; [|try exact I]).
   - destruct (totalU_uh U i s w) as (A & _). destruct (totalU Vf MWf pkgs U i s w) as [U1 x]. cbn [fst] in *. rewrite A. exact I.
@@ -1779,7 +1856,7 @@ Proof.
     destruct w; repeat match goal with |- context [if ?c then _ else _] => destruct c end;
       cbn [fst]; try exact UC2; (eapply UC_ext; [| |exact UC2]; reflexivity). }
   unfold stepU.
-  destruct o as [ |i w|i w|i|i u r k|i u r k v|i u|i u v|i w r k v|i w v|i v|i v|i p|i l|i j f p t|i|i j|i k|i k|i w u r k|i w u r k v|i j w|i w r1 r2|fl|i rp ru rt rfl|i r];
+  destruct o as [ |i w|i w|i|i u r k|i u r k v|i u|i u v|i w r k v|i w v|i v|i v|i p|i l|i j f p t|i|i j|i k|i k|i w u r k|i w u r k v|i j w|i w r1 r2|fl|i rp ru rt rfl|i r|i|i mt mu ml mpf];
     try exact D; try (apply UC_stepU_from; exact UCU); try (apply UC_stepU_reset; exact UCU);
     (destruct (nth_error (streams (uh U)) i) as [s|] eqn:Hs; [|try exact UCU]).
   - destruct (totalU_uh U i s w) as (_ & A & B). destruct (totalU Vf MWf pkgs U i s w) as [U1 x]. cbn [fst] in *.
@@ -1930,10 +2007,63 @@ Qed.
 Lemma copy_rows_like_streams h d x : streams (copy_rows_like h d x) = streams h.
 Proof. apply copy_rows_like_struct. Qed.
 
+Lemma PKP_copy_like_x h i s o : nth_error (streams h) i = Some s -> PKP i h (fst (copy_like_x pkgs h i s o)).
+Proof.
+  intros Hs. unfold copy_like_x.
+  assert (E0 : streams (empty_all h s) = streams h) by apply map_rows_streams.
+  destruct (multi s) eqn:M; destruct (multi o) eqn:MO.
+  - destruct (existsb (xmiss (chems pkgs (pkg o)) (chems pkgs (pkg s))) (all_rows h o)); [apply PKP_same; reflexivity|].
+    destruct (phases_eqb (phs s) (phs o)); apply PKP_same; try reflexivity. cbn [fst]. simpl.
+    rewrite (proj2 (proj2 (copy_rows_like_x_struct _ _ _ _))). exact E0.
+  - destruct (pindex (phs s) (getbox h (pbox o))) as [k|].
+    + destruct (nth_error (rowrefs (empty_all h s) s) k); [|apply PKP_same; exact E0].
+      destruct (xmiss (chems pkgs (pkg o)) (chems pkgs (pkg s)) (getrow h (sdata o))); apply PKP_same; cbn [fst]; simpl; exact E0.
+    + destruct (stream_shares_arr h i (sdata s)); [apply PKP_same; reflexivity|].
+      match goal with |- context [expand_rows ?a ?b ?c ?d] => pose proof (expand_rows_frame b c d a) as F; destruct (expand_rows a b c d) as [rs h1] end.
+      cbn [fst snd] in F. destruct F as (_ & _ & FS).
+      assert (G : forall hx, streams hx = upd (streams h1) i (mkstream true (sdata s) (pbox s) (psort (getbox h (pbox o) :: phs s)) (pkg s) (cch s) (tc s)) -> PKP i h hx).
+      { intros hx Ex. split; [rewrite Ex, upd_length, FS, E0; reflexivity|]. intros j x H. rewrite Ex, FS, E0 in H. destruct (Nat.eq_dec j i) as [Q|N].
+        - subst j. rewrite nth_error_upd_same in H by (eapply nth_error_lt; eauto). inversion H; subst.
+          exists s. split; [auto|split; [reflexivity|]]. intros N. exfalso; apply N; reflexivity.
+        - rewrite nth_error_upd_other in H by auto. exists x. auto. }
+      destruct (pindex (psort (getbox h (pbox o) :: phs s)) (getbox h (pbox o))) as [k|].
+      * destruct (nth_error rs k); [|cbn [fst]; apply G; reflexivity].
+        destruct (xmiss (chems pkgs (pkg o)) (chems pkgs (pkg s)) (getrow h (sdata o))); cbn [fst]; apply G; reflexivity.
+      * cbn [fst]. apply G; reflexivity.
+  - assert (Hs0 : nth_error (streams (empty_all h s)) i = Some s) by (rewrite E0; exact Hs).
+    assert (TAIL : forall l, PKP i h (fst (
+       match single_to_multi pkgs (empty_all h s) i s l with
+       | (h1, XNone) =>
+           match nth_error (streams h1) i with
+           | Some s1 =>
+               if existsb (xmiss (chems pkgs (pkg o)) (chems pkgs (pkg s))) (all_rows h1 o) then (h1, XErr EOther)
+               else if phases_eqb (phs s1) (phs o)
+               then (copy_tp (copy_rows_like_x (empty_all h1 s1) (remap (chems pkgs (pkg o)) (chems pkgs (pkg s))) (rowrefs h1 s1) (rowrefs h1 o)) s1 o, XNone)
+               else (h1, XDomain)
+           | None => (h1, XErr EIndex)
+           end
+       | r => r
+       end))).
+    { intros l. pose proof (PKP_single_to_multi (empty_all h s) i s l Hs0) as P1.
+      destruct (single_to_multi pkgs (empty_all h s) i s l) as [h1 x]. cbn [fst] in P1.
+      assert (P0 : PKP i h h1) by (eapply PKP_trans; [apply PKP_same; exact E0|exact P1]).
+      destruct x; try exact P0.
+      destruct (nth_error (streams h1) i) as [s1|]; [|exact P0].
+      destruct (existsb (xmiss (chems pkgs (pkg o)) (chems pkgs (pkg s))) (all_rows h1 o)); [exact P0|].
+      destruct (phases_eqb (phs s1) (phs o)); [|exact P0]. cbn [fst].
+      eapply PKP_trans; [exact P0|]. apply PKP_same. simpl.
+      rewrite (proj2 (proj2 (copy_rows_like_x_struct _ _ _ _))). apply map_rows_streams. }
+    destruct (phs o) as [|p [|q r]].
+    + apply TAIL.
+    + destruct (xmiss (chems pkgs (pkg o)) (chems pkgs (pkg s)) (nth 0 (all_rows (empty_all h s) o) [])); apply PKP_same; cbn [fst]; simpl; exact E0.
+    + apply TAIL.
+  - destruct (xmiss (chems pkgs (pkg o)) (chems pkgs (pkg s)) (getrow (empty_all h s) (sdata o))); apply PKP_same; cbn [fst]; simpl; exact E0.
+Qed.
+
 Lemma PKP_copy_like h i s o same : nth_error (streams h) i = Some s -> PKP i h (fst (copy_like pkgs h i s o same)).
 Proof.
   intros Hs. unfold copy_like. destruct same; [apply PKP_same; reflexivity|].
-  destruct (negb (Nat.eqb (pkg s) (pkg o))); [apply PKP_same; reflexivity|].
+  destruct (negb (Nat.eqb (pkg s) (pkg o))); [apply PKP_copy_like_x; exact Hs|].
   destruct (multi s) eqn:M; destruct (multi o) eqn:MO.
   - destruct (phases_eqb (phs s) (phs o)); apply PKP_same; try reflexivity. cbn [fst]. simpl. apply copy_rows_like_streams.
   - destruct (pindex (phs s) (getbox h (pbox o))) as [k|].
@@ -1995,7 +2125,7 @@ Lemma step_PKP h o i' : (forall i k, o <> OThermo i k) -> (forall l, o <> OFromS
   (forall i, tgt o = Some i -> i = i') -> PKP i' h (fst (step Vf MWf pkgs utab h o)).
 Proof.
   intros NT NF TG. unfold step.
-  destruct o as [ |i w|i w|i|i u r k|i u r k v|i u|i u v|i w r k v|i w v|i v|i v|i p|i l|i j f p t|i|i j|i k|i k|i w u r k|i w u r k v|i j w|i w r1 r2|fl|i rp ru rt rfl|i r];
+  destruct o as [ |i w|i w|i|i u r k|i u r k v|i u|i u v|i w r k v|i w v|i v|i v|i p|i l|i j f p t|i|i j|i k|i k|i w u r k|i w u r k v|i j w|i w r1 r2|fl|i rp ru rt rfl|i r|i|i mt mu ml mpf];
     try (apply PKP_same; reflexivity); try (exfalso; eapply NF; reflexivity);
     (destruct (nth_error (streams h) i) as [s|] eqn:Hs; [|apply PKP_same; reflexivity]).
   - apply PKP_same. destruct w; [reflexivity| |].
@@ -2028,6 +2158,7 @@ Proof.
     destruct (Nat.eqb i j); [reflexivity|]. apply assign_view_streams.
   - apply PKP_same. apply copy_row_view_streams.
   - apply PKP_same. apply reset_flow_streams.
+  - apply PKP_same. apply map_rows_streams.
 Qed.
 
 (* ---------- the property memo: what F_vol reads is the mixture volume of the CURRENT state ---------- *)
@@ -2196,7 +2327,7 @@ Proof.
   { intros NT NF. eapply (PM_ext (match tgt o with Some i => i | None => O end)); [| |exact P]; [|reflexivity]. unfold liftU. cbn [fst uh with_heap].
     apply step_PKP; try assumption. intros i E. rewrite E. reflexivity. }
   unfold stepU.
-  destruct o as [ |i w|i w|i|i u r k|i u r k v|i u|i u v|i w r k v|i w v|i v|i v|i p|i l|i j f p t|i|i j|i k|i k|i w u r k|i w u r k v|i j w|i w r1 r2|fl|i rp ru rt rfl|i r];
+  destruct o as [ |i w|i w|i|i u r k|i u r k v|i u|i u v|i w r k v|i w v|i v|i v|i p|i l|i j f p t|i|i j|i k|i k|i w u r k|i w u r k v|i j w|i w r1 r2|fl|i rp ru rt rfl|i r|i|i mt mu ml mpf];
     try (apply PM_stepU_from; exact P); try (apply PM_stepU_reset; exact P); try (apply D; [intros; discriminate|intros; discriminate]);
     (destruct (nth_error (streams (uh U)) i) as [s|] eqn:Hs; [|try exact P]).
   - pose proof (totalU_PM U i s w P Hs) as X. destruct (totalU Vf MWf pkgs U i s w) as [U1 x]. exact X.
@@ -2321,7 +2452,7 @@ Proof.
   assert (D : PKP i' (uh U) (uh (fst (liftU U (step Vf MWf pkgs utab (uh U) o))))).
   { unfold liftU. cbn [fst uh with_heap]. apply step_PKP; assumption. }
   unfold stepU.
-  destruct o as [ |i w|i w|i|i u r k|i u r k v|i u|i u v|i w r k v|i w v|i v|i v|i p|i l|i j f p t|i|i j|i k|i k|i w u r k|i w u r k v|i j w|i w r1 r2|fl|i rp ru rt rfl|i r];
+  destruct o as [ |i w|i w|i|i u r k|i u r k v|i u|i u v|i w r k v|i w v|i v|i v|i p|i l|i j f p t|i|i j|i k|i k|i w u r k|i w u r k v|i j w|i w r1 r2|fl|i rp ru rt rfl|i r|i|i mt mu ml mpf];
     try exact D; try (exfalso; eapply NF; reflexivity); try (apply PKP_same; apply stepU_reset_streams);
     (destruct (nth_error (streams (uh U)) i) as [s|] eqn:Hs; [|try (apply PKP_same; reflexivity)]).
   - destruct (totalU_uh U i s w) as (A & _). destruct (totalU Vf MWf pkgs U i s w) as [U1 x]. cbn [fst] in *. apply PKP_same. rewrite A. reflexivity.
@@ -2422,7 +2553,7 @@ Proof.
   - destruct (stepU Vf MWf pkgs utab (ku K) o) as [U1 x] eqn:SU. cbn [fst].
     assert (UH : uh U1 = uh (fst (stepU Vf MWf pkgs utab (ku K) o))) by (rewrite SU; reflexivity).
     assert (XH : x = snd (stepU Vf MWf pkgs utab (ku K) o)) by (rewrite SU; reflexivity).
-    destruct o as [ |i w|i w|i|i u r k|i u r k v|i u|i u v|i w r k v|i w v|i v|i v|i p|i l|i j f p t|i|i j|i kk|i kk|i w u r k|i w u r k v|i j w|i w r1 r2|fl|i rp ru rt rfl|i r];
+    destruct o as [ |i w|i w|i|i u r k|i u r k v|i u|i u v|i w r k v|i w v|i v|i v|i p|i l|i j f p t|i|i j|i kk|i kk|i w u r k|i w u r k v|i j w|i w r1 r2|fl|i rp ru rt rfl|i r|i|i mt mu ml mpf];
       simpl in KQ; try discriminate; cbn [reselects];
       try (apply ICI_keep; [exact I|]; intros i'; rewrite UH; apply stepU_PKP; intros; discriminate);
       try (apply ICI_refresh; [exact I|]; apply PKP_SHP; rewrite UH; apply stepU_PKP; intros; try discriminate;
@@ -2606,10 +2737,10 @@ Ltac kcrush :=
   | |- context [match ?x with _ => _ end] => destruct x
   end); cbn [fst sk]; try assumption; try (apply KInv_reset_memos; assumption).
 
-Lemma KInv_stepS S o : KInv (sk S) -> KInv (sk (fst (stepS Vf MWf pkgs utab S o))).
+Lemma KInv_stepS0 S o : KInv (sk S) -> KInv (sk (fst (stepS0 Vf MWf pkgs utab S o))).
 Proof.
-  intros H. unfold stepS. cbv beta zeta.
-  destruct o as [ |i w|i w|i|i u r k|i u r k v|i u|i u v|i w r k v|i w v|i v|i v|i p|i l|i j f p t|i|i j|i k|i k|i w u r k|i w u r k v|i j w|i w r1 r2|fl|i rp ru rt rfl|i r]; cbv beta iota zeta.
+  intros H. unfold stepS0. cbv beta zeta.
+  destruct o as [ |i w|i w|i|i u r k|i u r k v|i u|i u v|i w r k v|i w v|i v|i v|i p|i l|i j f p t|i|i j|i k|i k|i w u r k|i w u r k v|i j w|i w r1 r2|fl|i rp ru rt rfl|i r|i|i mt mu ml mpf]; cbv beta iota zeta.
   26: { (* ms[phase] *)
     destruct (nth_error (streams (uh (ku (sk S)))) i) as [s|] eqn:Hs; [|exact H].
     destruct (negb (multi s)); [exact H|].
@@ -2621,6 +2752,43 @@ Proof.
   all: match goal with |- context [stepK _ _ _ _ _ ?oo] =>
          pose proof (KInv_stepK (sk S) oo H) as H1; destruct (stepK Vf MWf pkgs utab (sk S) oo) as [K1 x]; cbn [fst] in H1 end.
   all: kcrush.
+Qed.
+
+(* MultiStream.reset_flow is a composition of operations of the outermost machine *)
+Lemma KInv_set_flows_row i u r fl : forall S, KInv (sk S) -> KInv (sk (fst (set_flows_row Vf MWf pkgs utab S i u r fl))).
+Proof.
+  induction fl as [|[k v] t IH]; intros S H; cbn [set_flows_row fst]; auto.
+  pose proof (KInv_stepS0 S (OSetFlow i u r k v) H) as H1.
+  destruct (stepS0 Vf MWf pkgs utab S (OSetFlow i u r k v)) as [S1 x]. cbn [fst] in H1.
+  destruct (is_none x); [apply IH; exact H1|exact H1].
+Qed.
+Lemma KInv_set_phase_flows i u pf : forall S, KInv (sk S) -> KInv (sk (fst (set_phase_flows Vf MWf pkgs utab S i u pf))).
+Proof.
+  induction pf as [|[p fl] t IH]; intros S H; cbn [set_phase_flows fst]; auto.
+  destruct (nth_error (streams (s_heap S)) i) as [s|]; [|exact H].
+  destruct (pindex (phs s) p) as [r|]; [|exact H].
+  pose proof (KInv_set_flows_row i u r fl S H) as H1.
+  destruct (set_flows_row Vf MWf pkgs utab S i u r fl) as [S1 x]. cbn [fst] in H1.
+  destruct (is_none x); [apply IH; exact H1|exact H1].
+Qed.
+Lemma KInv_stepS S o : KInv (sk S) -> KInv (sk (fst (stepS Vf MWf pkgs utab S o))).
+Proof.
+  intros H. unfold stepS. destruct o; try (apply KInv_stepS0; exact H).
+  unfold reset_flow_multi.
+  destruct (nth_error (streams (s_heap S)) i) as [s|]; [|exact H].
+  destruct (negb (multi s)); [exact H|].
+  set (ps := match l with Some x => x | None => Pl :: Pg :: map fst pf end).
+  destruct (psort ps) as [|p1 [|p2 pr]]; try exact H.
+  pose proof (KInv_stepS0 S (OEmpty i) H) as H1.
+  destruct (stepS0 Vf MWf pkgs utab S (OEmpty i)) as [S1 x1]. cbn [fst] in H1.
+  destruct (negb (is_none x1)); [exact H1|].
+  pose proof (KInv_stepS0 S1 (OPhases i ps) H1) as H2.
+  destruct (stepS0 Vf MWf pkgs utab S1 (OPhases i ps)) as [S2 x2]. cbn [fst] in H2.
+  destruct (negb (is_none x2)); [exact H2|].
+  pose proof (KInv_set_phase_flows i u pf S2 H2) as H3.
+  destruct (set_phase_flows Vf MWf pkgs utab S2 i u pf) as [S3 x3]. cbn [fst] in H3.
+  destruct (negb (is_none x3)); [exact H3|].
+  destruct (nonzero_opt tot) as [t|]; [apply KInv_stepS0; exact H3|exact H3].
 Qed.
 
 Lemma KInv_runS ops : forall S, KInv (sk S) -> KInv (sk (fst (runS Vf MWf pkgs utab S ops))).
